@@ -47,7 +47,7 @@ def cases(rng, tier):
         out.append({'kind': 'synthetic/' + style, 'peak': rng.random() < 0.5, 'direction': rng.choice(['both', 'next', 'last']),
                     'rises': [v() for _ in range(nrow)], 'decays': [v() for _ in range(nrow)],
                     'periods': [rng.choice([8, 10, 10, 12, 16, 20]) for _ in range(nrow)],
-                    'amps': [v() for _ in range(nrow)]})
+                    'amps': [v() for _ in range(nrow)], 'index': rng.choice(['default', 'default', 'offset', 'reversed'])})
     return out
 
 
@@ -68,6 +68,10 @@ def run_impl(c):
     df = pd.DataFrame({'volt_rise': np.array(_uf(c['rises']), dtype=float), 'volt_decay': np.array(_uf(c['decays']), dtype=float),
                        'volt_amp': np.array(_uf(c['amps']), dtype=float), 'period': np.array(c['periods'], dtype=int),
                        ('sample_peak' if c['peak'] else 'sample_trough'): np.arange(n, dtype=int)})
+    if c.get('index') == 'offset':
+        df.index = np.arange(n) + 5
+    elif c.get('index') == 'reversed':
+        df.index = np.arange(n)[::-1]
     out = {}
     try:
         out['af'] = _f([float(x) for x in np.asarray(compute_amp_fraction(df))])
